@@ -41,7 +41,7 @@ func init() {
 		CaseTimeout: 150 * time.Second,
 		Run:         runC06,
 		Floors: func(tier string) map[string]int {
-			m := map[string]int{"frames_judged": 120, "offchain_got_snapshot": 20, "onchain_got_incremental": 10, "end_state_identical": 50, "hostile_stream_frames_rejected": 20, "hostile_tx_rejected": 20}
+			m := map[string]int{"frames_judged": 80, "offchain_got_snapshot": 20, "onchain_got_incremental": 6, "end_state_identical": 50, "hostile_stream_frames_rejected": 20, "hostile_tx_rejected": 20}
 			for _, r := range c06Relations {
 				m["rel_"+r] = 4
 			}
